@@ -301,9 +301,24 @@ def in_model_domain(v):
     return all(not (isinstance(x, int) and not isinstance(x, bool) and abs(x) > 2 ** 53) for x in walk(v))
 
 
+def has_overflowing_int(v):
+    for x in walk(v):
+        if isinstance(x, int) and not isinstance(x, bool):
+            try:
+                float(x)
+            except OverflowError:
+                return True
+    return False
+
+
 def oracle_one(v, obs):
     """Property clauses on one value; returns list of (kind, what)."""
     out = []
+    if has_overflowing_int(v) and not any(isinstance(x, str) and has_lone_surrogate(x) for x in walk(v)):
+        # an integer too large for any double has no RFC 8785 number text: it must be refused, like NaN / Infinity
+        if "ok" in obs:
+            out.append(("refuse", "an integer beyond the range of doubles was not refused: returned %r" % obs["ok"][:80]))
+        return out
     if not in_oracle_domain(v):
         return out
     if has_nonfinite(v):
@@ -323,6 +338,9 @@ def oracle_one(v, obs):
             out.append(("loads", "json.loads(output) differs from the value (output %r)" % text[:100]))
     except ValueError as e:
         out.append(("loads", "output is not JSON: %s" % e))
+    if obs.get("u8") not in (True, None):
+        out.append(("bytes", "canonicalize(v) (utf8=True, the default) is not the UTF-8 encoding of canonicalize(v, utf8=False): %r"
+                    % (obs.get("u8"),)))
     if obs.get("re") != text:
         out.append(("fixpoint", "canonicalize(json.loads(output)) = %r, not the output" % (obs.get("re", obs.get("re_exc")),)))
     return out
@@ -518,11 +536,37 @@ FIXED_DOCS = [
 ]
 
 
+BOUNDS = [0, 1, 2, 9, 10, 11, 63, 64, 65, 100, 101, 255, 256]
+
+
+def gen_size_docs(rng):
+    """sizes and depths on both sides of plausible bounds: nesting levels, element counts, member counts, string lengths"""
+    out = []
+    for d in BOUNDS:
+        v = 1
+        for _ in range(d):
+            v = [v]
+        out.append(v)
+        w = "x"
+        for i in range(d):
+            w = {"k%d" % (i % 3): w}
+        out.append(w)
+    for n in BOUNDS:
+        out.append([rng.choice([i, float(i) + 0.5, str(i), None, i % 2 == 0]) for i in range(n)])
+        keys = ["m%03d" % i for i in range(n)]
+        rng.shuffle(keys)
+        out.append({k: i for i, k in enumerate(keys)})
+    for n in (0, 1, 255, 256):
+        out.append("".join(rng.choice(["a", "\u00e9", "\U0001F600", "\n", "\""]) for _ in range(n)))
+        out.append({"".join(rng.choice("ab\u20ac") for _ in range(n)): n})
+    return out
+
+
 def gen_docs(rng, tier, numbers, ints):
     finite = [x for x in numbers if x == x and x not in (math.inf, -math.inf)]
     n = 1000 if tier != "thorough" else 8000
     groups = []          # list of lists of values (first = base, rest = deep shuffles)
-    for v in FIXED_DOCS:
+    for v in FIXED_DOCS + gen_size_docs(rng):
         groups.append([v])
     for i in range(n):
         r = rng.random()
@@ -784,6 +828,7 @@ def gen_position_scalars(rng, tier):
     """scalars of every kind, integers first: beyond 2^53, at and beyond 1e21, negative, exactly representable or not"""
     zs = [2 ** 53, 2 ** 53 + 2, 2 ** 63, 2 ** 64, 2 ** 64 - 1, 2 ** 70, 10 ** 16, 10 ** 20, 10 ** 21, 10 ** 22, 10 ** 21 + 2 ** 20,
           123456789012345680000, 9007199254740993, 3 * 2 ** 60, 0, 1, -1, 7, 10 ** 15, 2 ** 31]
+    zs += [2 ** 1024, 2 ** 1024 - 2 ** 970, 2 ** 1024 - 2 ** 970 - 1, 2 ** 1023, 10 ** 308, 10 ** 309, 10 ** 400, 2 ** 2000]
     zs += [-z for z in zs if z]
     for _ in range(20 if tier != "thorough" else 400):
         zs.append(rng.randrange(2 ** 53, 2 ** 90) * rng.choice((1, -1)))
@@ -905,7 +950,9 @@ def check(run):
         "code point order, strings over control/ASCII/BMP/astral classes, deep shuffles of member order, small streams with "
         "NaN/Infinity and lone surrogates. Each value goes through canonicalize(v, utf8=False) and the Coq model; numbers "
         "also through py_repr/es6_tostring from independently obtained shortest digits. Non-trivial = the result is a text "
-        "(not an exception) and the value is not a bare null/true/false. Position stream: about 100 scalars (ints beyond 2^53 and >= 1e21, floats, "
+        "(not an exception) and the value is not a bare null/true/false. Sizes/depths 0,1,2,9,10,11,63,64,65,100,101,255,256 for nesting, "
+        "element and member counts, strings of length 0,1,255,256; canonicalize(v) with the default utf8=True must be the UTF-8 "
+        "bytes of the text form. Position stream: about 100 scalars (ints beyond 2^53 and >= 1e21, floats, "
         "strings, booleans, null) in seven positions each; the top-level text must reappear verbatim in every position. "
         "History stream: a sample of the questions is asked "
         "again in one interpreter around other public calls of the package (serialize, canonicalize utf8=True, JSONEncoder "
@@ -961,6 +1008,12 @@ def check(run):
         values.append({"n": [z, -z]}); kinds.append("bigint")
 
     obs = run_cases(values)
+    # which variant of the float() guard does the code match (witness: an int no double can hold)?
+    w = run_cases([10 ** 400])[0]
+    overflow_mode = {"ValueError": "refused-ValueError", "OverflowError": "propagates"}.get(w.get("exc"), "other")
+    run.coverage["int_overflow_variant"] = overflow_mode
+    if overflow_mode == "other":
+        run.broken.append(Broken("correspondence", "canonicalize(10**400) neither ValueError nor OverflowError", {"observed": w}))
 
     hist = {}
     for v, o, kd in zip(values, obs, kinds):
@@ -1009,6 +1062,8 @@ def check(run):
                 out_of_model += 1
                 continue
             if ml != impl_line:
+                if overflow_mode == "propagates" and impl_line == "EXC OverflowError" and ml == "EXC ValueError":
+                    continue            # a tree without the float() guard: the OverflowError of float(z) propagates
                 dis.append({"value": enc(v), "impl": impl_line[:300], "model": ml[:300]})
         run.coverage["correspondence_cases"] = n_model
         run.coverage["correspondence_disagreements"] = len(dis)
